@@ -1022,6 +1022,8 @@ dt_strfdt(char *restrict buf, size_t bsz, const char *fmt, struct dt_dt_s that)
 			/* must be literal then */
 			*bp++ = *fp_sav;
 		} else if (LIKELY(!spec.rom)) {
+			const char *const bq = bp;
+
 			bp += __strfdt_card(bp, eo - bp, spec, &d, that);
 			if (UNLIKELY(bp > eo)) {
 				/* snprintf()ing specs report what they
@@ -1029,7 +1031,7 @@ dt_strfdt(char *restrict buf, size_t bsz, const char *fmt, struct dt_dt_s that)
 				bp = eo;
 			}
 			if (spec.ord && bp >= buf + 2) {
-				bp += __ordtostr(bp, eo - bp);
+				bp += __ordtostr(bp, eo - bp, bp - bq);
 			} else if (spec.bizda && bp < eo) {
 				/* don't print the b after an ordinal */
 				if (spec.ab == BIZDA_AFTER) {
